@@ -237,3 +237,11 @@ RULES.append(("C12.STEP", "each entered command is executed as the language defi
 RULES.append(("C12.INIT", "the state a session starts from (and `clear` returns to): empty, stack 3 selected, no jump source (shared with C01.INIT)", p_c01.rule_init))
 
 RULES.append(("C12.STATEAPI", "the accessors of the state (selected stack, jump source, label table, command log) read and write exactly their field (shared with C01.STATEAPI)", p_c01.rule_stateapi))
+
+
+def _codeapi(ctx, R):
+    from . import p_c01
+    return p_c01.rule_codeapi(ctx, R)
+
+
+RULES.append(("C12.CODEAPI", "the words kind / syllable count / dot count / area count / area mean the fields of the command record: getters and constructors of UnOptCode and OptCode (shared with C01.CODEAPI)", _codeapi))
